@@ -154,18 +154,38 @@ def _frame(ctx, SPEC):
                 continue
             a = aops[0]
             rhs = hq.peel(a["r"])
-            ivar = f["pat"].get("name")
-            good = (a["op"] == "+=" and rhs.get("k") == "Binary" and rhs["op"] == "<<")
+            # index loop `for i in ..len { v += (buf[i] as _) << (8 * i) }` or
+            # `for (i, b) in buf.iter().enumerate() { v += (*b as _) << (8 * i) }`
+            pat = f["pat"]
+            ilid, blid = None, None
+            if pat.get("k") == "Bind":
+                ilid = pat["lid"]
+                it_ok = it.startswith(("0..", ".."))
+            elif pat.get("k") == "Tuple" and len(pat["pats"]) == 2 and all(q.get("k") == "Bind" for q in pat["pats"]):
+                ilid, blid = pat["pats"][0]["lid"], pat["pats"][1]["lid"]
+                it_ok = it.startswith("core::iter::traits::iterator::Iterator::enumerate(core::slice::iter(")
+            else:
+                it_ok = False
+
+            def is_local(x, lid):
+                x = hq.peel(x)
+                while x.get("k") in ("Unary", "AddrOf") and x.get("op", "*") == "*":
+                    x = hq.peel(x["e"])
+                return x.get("k") == "Local" and x["lid"] == lid
+            good = (a["op"] in ("+=", "|=") and rhs.get("k") == "Binary" and rhs["op"] == "<<")
             if good:
                 sh = hq.peel(rhs["r"])
                 val = hq.peel(rhs["l"])
-                good = (sh.get("k") == "Binary" and sh["op"] == "*" and
-                        {H.show(sh["l"]), H.show(sh["r"])} == {"8", ivar})
+                good = sh.get("k") == "Binary" and sh["op"] == "*" and \
+                    ((H.lit_val(sh["l"]) == 8 and is_local(sh["r"], ilid)) or (H.lit_val(sh["r"]) == 8 and is_local(sh["l"], ilid)))
                 v0 = hq.peel(val["e"]) if val.get("k") == "Cast" else val
-                good = good and v0.get("k") == "Index" and H.show(v0["idx"]) == ivar
+                if blid is None:
+                    good = good and v0.get("k") == "Index" and is_local(v0["idx"], ilid)
+                else:
+                    good = good and is_local(v0, blid)
             which = "fcs" if "fcs" in H.show(a["l"]) else "did"
             n += 1
-            ctx.check(good and it.startswith(("0..", "..")), R, "reader::%s-little-endian" % which, H.loc(body, a),
+            ctx.check(good and it_ok, R, "reader::%s-little-endian" % which, H.loc(body, a),
                       "%s must be assembled little-endian: value += (buf[i] as _) << (8 * i) for i in 0..len" % which,
                       observed=H.show(a))
         ctx.check(n == 2, R, "reader::le-loops", body["file"], "expected two little-endian assembly loops", observed=n)
@@ -453,9 +473,9 @@ def _block(ctx, SPEC):
         want["Reserved"] = "diverges"
         ctx.check(got == want, R, "writer::type-table", body["file"], "block type encoding must invert the RFC table",
                   observed=got, expected=want)
-        # accumulate `let mut x = a; x |= b; ...`
-        acc = None
-        accname = None
+        # the value whose little-endian bytes are written: evaluated bit by bit, whether it is built in one
+        # expression or accumulated with `|=` (straight-line updates fold, hq.Canon.straight_value)
+        cdefs = hq.Canon(body)
 
         def sources(n):
             n = hq.peel(n)
@@ -464,31 +484,29 @@ def _block(ctx, SPEC):
                 return B.src_bits("size", 32)
             if f == ["last_block"]:
                 return B.src_bits("last", 1)
-            if n.get("k") == "Local" and n["name"] == "encoded_block_type":
+            if n.get("k") == "Local":
+                d = cdefs.defs.get(n["lid"])
+                if d is not None and d[0] == "let" and hq.peel(d[1]) is m:
+                    return B.resize(B.src_bits("type", 2), 32)      # the local holding the encoded block type
+            if n is m:
                 return B.resize(B.src_bits("type", 2), 32)
             return None
         ev = B.Eval(body, sources)
-        for s in hq.top_statements(body["body"]):
-            if s["k"] == "LetStmt" and s["pat"].get("mut") and s.get("init") is not None:
-                try:
-                    acc = ev.ev(s["init"])
-                    accname = s["pat"]["name"]
-                except B.Unsupported:
-                    acc = None
-            elif s["k"] == "ExprStmt":
-                e = hq.peel(s["e"])
-                if e.get("k") == "AssignOp" and e["op"] == "|=" and acc is not None and H.show(e["l"]) == accname:
-                    rhs = B.resize(ev.ev(e["r"]), len(acc))
-                    acc = [1 if (x == 1 or y == 1) else (y if x == 0 else (x if y == 0 else None)) for x, y in zip(acc, rhs)]
-        if acc is None:
-            raise Anchor("block header accumulator not found")
+        ser = [x for x in hq.find(body["body"], lambda x: x.get("k") == "MethodCall" and x["name"] == "to_le_bytes")]
+        if len(ser) != 1:
+            raise Anchor("block header serialisation (to_le_bytes) not found")
+        try:
+            acc = B.resize(ev.ev(ser[0]["recv"]), 32)
+        except B.Unsupported as e:
+            raise Anchor("block header value not evaluable: %s" % e)
         want_bits = [("s", "last", 0), ("s", "type", 0), ("s", "type", 1)] + [("s", "size", i) for i in range(21)]
         ok = acc[:24] == want_bits
         ctx.check(ok, R, "writer::layout", body["file"],
                   "serialized block header must be last(1) | type(2) | size(21), LSB first", observed=B.describe(acc[:32]))
         ext = [x for x in hq.find(body["body"], lambda x: x.get("k") == "MethodCall" and x["name"] == "extend_from_slice")]
         c = hq.Canon(body)
-        ok = len(ext) == 1 and "to_le_bytes" in c(ext[0]["args"][0]) and c(ext[0]["args"][0]).endswith(("[0..3]", "[..3]"))
+        ok = len(ext) == 1 and "to_le_bytes" in c(ext[0]["args"][0]) and c(ext[0]["args"][0]).endswith(("[0..3]", "[..3]")) and \
+            any(ext[0] is a_ or True for a_ in [ext[0]]) and any(x is ser[0] for x, _ in H.walk(ext[0]["args"][0]))
         ctx.check(ok, R, "writer::three-le-bytes", body["file"], "block header is the first three little-endian bytes",
                   observed=[c(x["args"][0]) for x in ext])
     ctx.guard(R, "writer", writer)
